@@ -34,8 +34,14 @@ use serde_json::{json, Value};
 struct Meter;
 static CUR: AtomicUsize = AtomicUsize::new(0);
 static PEAK: AtomicUsize = AtomicUsize::new(0);
+/// child processes that run one risky input have a hard cap: beyond it the process aborts instead of
+/// taking the machine down
+static CAP_ON: std::sync::atomic::AtomicBool = std::sync::atomic::AtomicBool::new(false);
 unsafe impl GlobalAlloc for Meter {
     unsafe fn alloc(&self, l: Layout) -> *mut u8 {
+        if CAP_ON.load(Ordering::Relaxed) && (l.size() > (1 << 30) || CUR.load(Ordering::Relaxed) > (3usize << 30)) {
+            std::process::abort();
+        }
         let c = CUR.fetch_add(l.size(), Ordering::Relaxed) + l.size();
         PEAK.fetch_max(c, Ordering::Relaxed);
         System.alloc(l)
@@ -575,6 +581,54 @@ fn decode_mode(seed: u64, count: usize, out: &str) {
             k += 1;
         }
     }
+    // placeholder claims that only overflow in sum: each input runs in a child process with an allocation cap
+    {
+        let claims: Vec<Vec<u32>> = vec![
+            vec![u32::MAX], vec![1 << 31, 1 << 31], vec![u32::MAX, 1], vec![u32::MAX, u32::MAX], vec![u32::MAX, 2, 1],
+            vec![1 << 31, 1 << 31, 5], vec![0xffff_fff0, 0x20], vec![3, 2], vec![0, 0], vec![65, 1],
+        ];
+        for c in claims.iter() {
+            let mut blk = gen_block(&mut r);
+            blk.merkle_root = [0; 32];
+            blk.transactions = c
+                .iter()
+                .enumerate()
+                .map(|(i, n)| {
+                    let mut t = gen_tx(&mut r, false);
+                    if i % 2 == 0 { t.transaction_type = TransactionType::SPV; }
+                    t.txs_replacements = *n;
+                    t
+                })
+                .collect();
+            let input = blk.serialize_for_net(BlockType::Full);
+            let exe = std::env::current_exe().expect("exe");
+            let mut child = std::process::Command::new(exe)
+                .args(["onecase", "0", "0", "-", &hx(&input)])
+                .stdout(std::process::Stdio::piped())
+                .stderr(std::process::Stdio::null())
+                .spawn()
+                .expect("spawn");
+            let t0 = std::time::Instant::now();
+            let mut status = None;
+            while t0.elapsed() < std::time::Duration::from_secs(30) {
+                match child.try_wait() { Ok(Some(st)) => { status = Some(st); break; } _ => std::thread::sleep(std::time::Duration::from_millis(20)) }
+            }
+            let (outcome, peak) = match status {
+                Some(st) if st.success() => {
+                    let mut out = String::new();
+                    use std::io::Read;
+                    let _ = child.stdout.take().map(|mut o| o.read_to_string(&mut out));
+                    let v: Value = serde_json::from_str(out.trim()).unwrap_or(json!({"res": "Panic:child output unreadable", "peak": 0}));
+                    (v["res"].as_str().unwrap_or("?").to_string(), v["peak"].as_u64().unwrap_or(0) as usize)
+                }
+                Some(_) => ("Panic:aborted at the allocation cap (1 GB in one request / 3 GB in total)".to_string(), 2_000_000_000),
+                None => { let _ = child.kill(); let _ = child.wait(); ("Panic:no result within 30 s".to_string(), 2_000_000_000) }
+            };
+            trace.emit(json!({"ev": "Decode", "scn": k, "i": 1, "dec": "block", "mut": format!("claims:{:?}", c), "len": input.len(),
+                              "peak": peak.min(2_000_000_000), "res": outcome}));
+            k += 1;
+        }
+    }
     // random strings
     for _ in 0..count {
         let name = decs[r.gen_range(0..decs.len())].0;
@@ -596,6 +650,18 @@ fn main() {
     let seed: u64 = args[2].parse().unwrap();
     let count: usize = args[3].parse().unwrap();
     match args[1].as_str() {
+        "onecase" => {
+            // one block buffer (hex) through the block decoder, under the allocation cap; prints the outcome
+            CAP_ON.store(true, Ordering::Relaxed);
+            let input: Vec<u8> = hex::decode(&args[5]).expect("hex");
+            let decs = decoders();
+            let dec = decs.iter().find(|(n, _)| *n == "block").unwrap();
+            let base = meter_start();
+            let res = guarded(|| (dec.1)(&input));
+            let peak = meter_peak_over(base);
+            let outcome = match res { Ok(()) => "returned".to_string(), Err(p) => format!("Panic:{}", p) };
+            println!("{}", json!({"res": outcome, "peak": peak}));
+        }
         "codec" => codec_mode(seed, count, &args[4]),
         _ => decode_mode(seed, count, &args[4]),
     }
